@@ -541,3 +541,73 @@ def mon_c14(ex, info, col):
                 if clog[k - 1] == S.C_FINISHED and clog[k] != S.C_FINISHED:
                     out.append(V("C14", "C14:logged-left-FINISHED", ex, {"k": k, "component": cn, "log": clog}))
     return out
+
+
+# ------------------------------------------------------------------------------------------ C10
+def mon_c10(ex, info, col):
+    out = []
+    bs = ex.by_step()
+    absn = set(ex.opts.get("absence") or ())
+    for t in sorted(bs):
+        phs = bs[t]
+        if "allocated" not in phs:
+            continue
+        working, sa = phs["allocated"]
+        if working is False:
+            col.checks["c10.absence-step"] += 1
+            col.nontrivial.add(hash((info.key, "P", tuple(sorted((k, v[0], round(v[1], 6)) for k, v in sa["tasks"].items())))))
+            su = phs.get("updated", (None, None))[1]
+            sr = phs.get("recorded", (None, None))[1]
+            for tn in info.tnames:
+                if su is not None:
+                    if len(sa["tasks"][tn][2]) > len(su["tasks"][tn][2]) or len(sa["tasks"][tn][3]) > len(su["tasks"][tn][3]) or \
+                            any(w not in su["tasks"][tn][2] for w in sa["tasks"][tn][2]):
+                        out.append(V("C10", "C10:allocation-at-project-absence-step", ex, {"t": t, "task": tn, "before": su["tasks"][tn][2:4], "after": sa["tasks"][tn][2:4]}))
+                if su is not None and sr is not None:
+                    d = su["tasks"][tn][1] - sr["tasks"][tn][1]
+                    if not info.is_auto(tn):
+                        if abs(d) > TOL:
+                            out.append(V("C10", "C10:non-automatic-task-progressed-at-project-absence-step", ex, {"t": t, "task": tn, "decrease": d}))
+                    else:
+                        want = info.unit(tn) if (ex.opts.get("auto_abs") and sa["tasks"][tn][0] == S.T_WORKING) else 0.0
+                        col.checks["c10.auto"] += 1
+                        if abs(d - want) > TOL:
+                            sig = "C10:automatic-task-progressed-at-absence-step-without-flag" if want == 0.0 else "C10:automatic-task-did-not-progress-at-absence-step-with-flag"
+                            out.append(V("C10", sig, ex, {"t": t, "task": tn, "decrease": d, "expected": want}))
+        else:
+            # individually absent resources contribute nothing: progress equals the oracle's contribution
+            if "performed" in phs:
+                sp_ = phs["performed"][1]
+                for tn in info.tnames:
+                    ws, fs = sa["tasks"][tn][2], sa["tasks"][tn][3]
+                    if any(res_absent(ex, info, r, t) for r in ws + fs):
+                        col.checks["c10.absent-resource"] += 1
+                        col.nontrivial.add(hash((info.key, "R", tn, ws, fs, t in absn)))
+                        c = contribution(ex, info, tn, t, working, sa)
+                        d = sa["tasks"][tn][1] - sp_["tasks"][tn][1]
+                        if abs(d - c) > TOL:
+                            out.append(V("C10", "C10:absent-resource-contributed-progress", ex, {"t": t, "task": tn, "decrease": d, "expected": c, "workers": ws, "facilities": fs}))
+    # logs: ABSENCE and zero cost
+    p = ex.project
+    n = len(p.cost_list)
+    for k in range(n):
+        pa = k in absn
+        if pa:
+            for name, lst in (("project", p.cost_list), ("organization", p.organization.cost_list)):
+                if k < len(lst) and lst[k] != 0.0:
+                    out.append(V("C10", "C10:cost-charged-at-project-absence-step", ex, {"k": k, "level": name, "cost": lst[k]}))
+            for g in list(p.organization.team_list) + list(p.organization.workplace_list):
+                if k < len(g.cost_list) and g.cost_list[k] != 0.0:
+                    out.append(V("C10", "C10:cost-charged-at-project-absence-step", ex, {"k": k, "level": g.ID, "cost": g.cost_list[k]}))
+        for rn in list(info.workers) + list(info.facilities):
+            r = ex.m.byname[rn]
+            if k >= len(r.state_record_list):
+                continue
+            ra = res_absent(ex, info, rn, k)
+            if pa or ra:
+                col.checks["c10.log"] += 1
+                if int(r.state_record_list[k]) != S.R_ABSENCE:
+                    out.append(V("C10", "C10:absent-resource-not-logged-ABSENCE" + (":project-wide" if pa else ":individual"), ex, {"k": k, "resource": rn, "state": int(r.state_record_list[k])}))
+                if k < len(r.cost_list) and r.cost_list[k] != 0.0:
+                    out.append(V("C10", "C10:absent-resource-charged" + (":project-wide" if pa else ":individual"), ex, {"k": k, "resource": rn, "cost": r.cost_list[k]}))
+    return out
